@@ -131,6 +131,15 @@ func (i *Inst) RunHostile(s *HsScript, tw *TraceWriter, rng *rand.Rand) error {
 			raw = tsgu.Data(0xffff, randBytes(rng, rng.Intn(10)))
 		case "data-empty":
 			raw = tsgu.Packet(tsgu.PktData, nil)
+		case "data-full-64k":
+			// the largest payloads the 16-bit inner length can announce, fully carried
+			n := []int{0xFFFF, 0xFFFE, 0xFFFD, 0xFFF8}[rng.Intn(4)]
+			raw = tsgu.Data(uint16(n), randBytes(rng, n))
+		case "data-inner-boundaries":
+			// several data packets whose inner length sits at the 16-bit boundaries, in one go
+			for _, n := range []int{0xFFFF, 0, 0xFFFE, 1} {
+				raw = append(raw, tsgu.Data(uint16(n), randBytes(rng, n))...)
+			}
 		case "random-bytes":
 			raw = randBytes(rng, 1+rng.Intn(300))
 		case "text-message":
